@@ -15,7 +15,7 @@ PINS = {
     "C17_indent": "forall ind a, (forall n, (n <= 12)%nat -> ind n = indent_real n) -> print_with ind a = print a",
     "C17_sourcepos": "forall docs sl sc el ec, 1 <= sc -> 1 <= ec -> sourcepos_to_span docs sl sc el ec <> SPanic",
 }
-SIZES = {"quick": (12000, 8), "thorough": (640000, 16)}
+SIZES = {"quick": (24000, 8), "thorough": (800000, 16)}
 
 
 def correspondence(o, n, shards, seed):
@@ -31,7 +31,7 @@ def correspondence(o, n, shards, seed):
     dirs = [d for _, d in cmds]
     base.run_model(o, dirs)
     compared, ops, abstained, ndiff = base.diff_dirs(o, dirs, "accept/reject + AST of the model parser; doc-link spans")
-    kinds = base.report_monitor(o, base.read_lines(dirs, "monitor.txt"))
+    kinds = base.report_monitor(o, base.read_lines(dirs, "monitor.txt"), mode="c17")
     ties = base.read_lines(dirs, "tie.txt")
     if ties:
         o.obligation_broken(f"correspondence of the span model with BrokenDocLink ({len(ties)} cases)", "\n".join(t[:600] for t in ties[:5]))
